@@ -9,5 +9,7 @@ CONSTANTS
   NewestFirst = TRUE
   RoutesFirst = TRUE
   OtherForAll = FALSE
+  EmptyMeansAll = FALSE
+  StatusSucceeds = FALSE
   StarWithCreds = FALSE
 INVARIANT Emit
